@@ -220,6 +220,10 @@ type Result struct {
 	Iters  int
 	Values []Value
 	Config map[string]string // file configuration in effect
+	// ConfigOrder lists the file configuration keys in the documented slice
+	// order of Result.Config: new keys are appended; deleting a key moves the
+	// last key into its place.
+	ConfigOrder []string
 }
 
 type UnitMeta struct {
@@ -292,6 +296,7 @@ func ConfigLine(line string) (key, val string, ok bool) {
 func Read(text string, units Units) []Record {
 	var out []Record
 	cfg := map[string]string{}
+	var order []string
 	for i, line := range Lines(text) {
 		ln := i + 1
 		switch {
@@ -310,6 +315,7 @@ func Read(text string, units Units) []Record {
 			for k, v := range cfg {
 				res.Config[k] = v
 			}
+			res.ConfigOrder = append([]string(nil), order...)
 			out = append(out, Record{Kind: "result", Line: ln, Result: res})
 		case strings.HasPrefix(line, "U") && len(fields(line)) > 0 && fields(line)[0] == "Unit":
 			fs := fields(line)[1:]
@@ -339,8 +345,20 @@ func Read(text string, units Units) []Record {
 		default:
 			if k, v, ok := ConfigLine(line); ok {
 				if v == "" {
-					delete(cfg, k)
+					if _, ok := cfg[k]; ok {
+						delete(cfg, k)
+						for i, o := range order {
+							if o == k {
+								order[i] = order[len(order)-1]
+								order = order[:len(order)-1]
+								break
+							}
+						}
+					}
 				} else {
+					if _, ok := cfg[k]; !ok {
+						order = append(order, k)
+					}
 					cfg[k] = v
 				}
 			}
